@@ -4,7 +4,7 @@ C18 — property theorems (path.cc, path.hh, stringutility.hh).  Statements only
 All theorems are about the character-level functions the driver runs (`processPathC`, `prettyPath`,
 `pathIndicatesDirectory`, `concatPaths`, `relativePath`, `hasPrefix`, `hasSuffix`, `formatString`) and hold
 for ALL strings (`Str = List Char`), of any length.  `pathIndicatesDirectory`, `concatPaths`, both bodies of `prettyPath`
-(`prettyPathWith`, `prettyPathAutoWith`), `bufferSize`, `fmtFitsStack`, `fmtDynamicSize` and the `docTable*` lists are
+(`prettyPathWith`, `prettyPathAutoWith`), `bufferSize`, `fmtFitsStack`, `fmtDynamicSize`, `hasPrefix`, `hasSuffix` and the `docTable*` lists are
 regenerated from the source tree on every run (Gen/C18.lean).
 -/
 import DuneVerif.Proofs.C18.Round4
@@ -302,6 +302,15 @@ example : relativeSpec (denote ['u', '/', 'l', 'i', 'b', '6']) (denote ['u', '/'
 
 /-! ## stringutility.hh -/
 
+/-- TIE (round four): the bodies of `hasPrefix` and `hasSuffix` that the translator regenerates from stringutility.hh on
+    every run (strlen, the size test in whatever spelling, `std::advance`, `std::equal`) — and that the driver and the
+    model of path.cc execute — are the canonical transcriptions -/
+theorem hasPrefixSuffix_regenerated (c pat : Str) :
+    hasPrefix c pat = hasPrefixCanon c pat ∧ hasSuffix c pat = hasSuffixCanon c pat :=
+  ⟨hasPrefix_eq_canon c pat, hasSuffix_eq_canon c pat⟩
+
+example : hasPrefixCanon ['a', 'b'] ['a'] = true ∧ hasSuffixCanon ['a', 'b'] ['a'] = false := by decide
+
 /-- hasPrefix agrees with its plain definition for operands of any length -/
 theorem hasPrefix_iff (c pre : Str) : hasPrefix c pre = true ↔ ∃ t, c = pre ++ t := by
   rw [hasPrefix_iff_isPrefix]
@@ -335,6 +344,20 @@ theorem formatString_skeleton_sound (r cap : Nat) :
 /-- the hypothesis is satisfiable (stated so that it survives harmless changes of the comparison or of the slack) -/
 example : (∃ r cap, fmtFitsStack r cap = true) ∧ fmtFitsStack 1000 1000 = false ∧ fmtDynamicSize 1000 > 1000 :=
   ⟨⟨0, 1000, by decide⟩, by decide, by decide⟩
+
+/-- the printf subset of the model: a conversion padded to the field width `w` has exactly `max w (digits + sign)`
+    characters, whatever the flags — the link between the width in a format and the result length the `f` cases sweep -/
+theorem padTo_length (w : Nat) (left zero : Bool) (body sign : Str) :
+    (padTo w left zero body sign).length = max w (body.length + sign.length) := by
+  unfold padTo
+  simp only []
+  split
+  · simp only [List.length_append]; omega
+  · split
+    · simp only [List.length_append, List.length_replicate]; omega
+    · split <;> simp only [List.length_append, List.length_replicate] <;> omega
+
+example : padTo 6 false true ['4', '2'] ['-'] = ['-', '0', '0', '0', '4', '2'] := by decide
 
 /-- formatString returns the complete formatted text whatever its length — below the stack buffer, exactly at it
     (bufferSize-1, bufferSize, bufferSize+1) or far beyond — as long as the length is representable in the `int`
